@@ -120,6 +120,11 @@ def gen_events(seed: int, n: int) -> list:
         ev["max"] = conv(with_minmax_cls.max(a, b))
         ev["min"] = conv(with_minmax_cls.min(a, b))
 
+    # the advertised constants are values like any other: the ends of the ranges, zero, the unit durations
+    evs.append({"op": "consts", "i_max": T3I(Instant.max_value), "i_min": T3I(Instant.min_value), "d_max": T3D(Duration.max_value),
+                "d_min": T3D(Duration.min_value), "d_zero": T3D(Duration.zero), "d_eps": T3D(Duration.epsilon), "d_day": T3D(Duration.one_day),
+                "d_week": T3D(Duration.one_week), "o_max": Offset.max_value.seconds, "o_min": Offset.min_value.seconds, "o_zero": Offset.zero.seconds,
+                "epoch": T3I(Instant.from_unix_time_ticks(0))})
     for i in range(n):
         c = rnd.random()
         if c < 0.12:
